@@ -2,6 +2,8 @@
 
 An operation is a (name, args) pair with JSON-able args; ``apply(layout, name, args)`` executes it.
 """
+import os
+
 import numpy as np
 
 import ext
@@ -256,11 +258,16 @@ def ops_for(d, T, tier, small=False):
             for mask in ((False, True) if not small else (False,)):
                 for keep in ((False, True) if not small else (False,)):
                     ops.append((r, [ax, mask, keep]))
-        ops.append(("sort", [ax, True, False]))
-        ops.append(("argsort", [ax, False, True]))
-        ops.append(("argsort", [ax, True, False]))      # the unstable argsort is a different routine (std::sort)
-        if not small:
-            ops.append(("sort", [ax, False, True]))
+        # sorting a four-deep array along a non-innermost axis reads past a heap buffer (KF-C12-NONLOCAL-SORT): the
+        # sanitizer build (C12) runs and reports it deterministically; the release build would corrupt its own heap at
+        # random, so the other checks leave that one combination out
+        unsafe = hi >= 4 and ax not in (-1, hi - 1) and os.environ.get("AKV_VARIANT") != "san"
+        if not unsafe:
+            ops.append(("sort", [ax, True, False]))
+            ops.append(("argsort", [ax, False, True]))
+            ops.append(("argsort", [ax, True, False]))      # the unstable argsort is a different routine (std::sort)
+            if not small:
+                ops.append(("sort", [ax, False, True]))
         for nn in ((1, 2, 3) if not small else (2,)):
             for repl in (False, True):
                 ops.append(("combinations", [nn, repl, ax]))
